@@ -294,7 +294,7 @@ fn sb_case(ctx: &mut Ctx, m: &str, tape: &[u8], rs: &[String], ws: &[String], cl
             let mm = crate::eval::eval_case(&format!("F2M {} {} {}", p[0], p[1], p[2]));
             format!("OK {}", mm.split(' ').next().unwrap())
         } else {
-            d
+            "ER".to_string()
         };
         if parts[0] != want {
             verdict = Some(format!("result {} but the line decodes to {}", parts[0], want));
@@ -464,12 +464,12 @@ fn gen_c17(ctx: &mut Ctx) {
                 if parts.len() < 3 || bytes_of_hex(parts[2].split(' ').next().unwrap_or("-")) != rest {
                     verdict = Some("the bridge did not consume exactly one line".to_string());
                 }
-                if class.starts_with("invalid") && (!res.starts_with("COMM ") || !res.contains("fwd=-")) {
+                if class.starts_with("invalid") && (!res.starts_with("COMM fwd=-")) {
                     verdict = Some("an undecodable line must be a communication error that does not touch the bus".to_string());
                 }
             }
             if (class.starts_with("invalid") && !class.ends_with("-then-valid")) || *class == "empty" || *class == "bad-checksum" {
-                if !res.starts_with("COMM ") || !res.contains("fwd=-") || !res.ends_with("UNC.-.0.cbf29ce484222325") {
+                if !res.starts_with("COMM fwd=-") || !res.ends_with("UNC.-.0.cbf29ce484222325") {
                     verdict = Some("an undecodable line must be a communication error that does not touch the bus".to_string());
                 }
             }
